@@ -15,8 +15,18 @@ from .gen import build_attr_value, tag_function
 from .ref.attrs import AttrModel
 
 
-def _d(pairs):
-    return {k: build_attr_value(v) for k, v in pairs}
+def _d(pairs, kind="dict"):
+    d = {k: build_attr_value(v) for k, v in pairs}
+    if kind == "ordereddict":
+        import collections
+
+        return collections.OrderedDict(d)
+    if kind == "userdictlike":
+        class AttrsDict(dict):
+            pass
+
+        return AttrsDict(d)
+    return d
 
 
 def _dup_free(pairs):
@@ -33,7 +43,7 @@ def run_case(case, step_hook=None):
     model = AttrModel()
     dicts = [_dup_free(a["d"]) for a in c.get("args", [])]
     kw = _dup_free(c.get("kw", []))
-    pos = [_d(d) for d in dicts]
+    pos = [_d(d, a.get("as", "dict")) for d, a in zip(dicts, c.get("args", []))]
     kids = ["kid"] if case.get("children") else []
     f = tag_function(name) if case.get("via", "fn") == "fn" else None
     if f is not None:
